@@ -3,6 +3,7 @@ import FordModel.External
 import FordModel.ExternalGraph
 import FordModel.ExternalAssoc
 import FordModel.ExternalChild
+import FordModel.ExternalHref
 namespace Ford
 open Proto Ext
 
@@ -382,6 +383,17 @@ def dispatchC16 : List Str → Option (List Str)
               | .ok (some (.node cls n u _ _ _)) => some ["some".toList, cls, renderJ n, renderJ u]
               | .ok (some (.text _)) => some ["some".toList, "text".toList]
         | _ => some ["bad-request".toList]
+      | _ => some ["bad-request".toList]
+    else if cmd == "c16.href".toList then
+      -- c16.href <output dir> <working dir> <U<context url> | P<path> | N> =<str(get_url()) of the item>  ->  ok <href>
+      match args with
+      | [base, cwd, pg, item] =>
+        let page : PageOf :=
+          match pg with
+          | 'U' :: u => .context (pathSegs u)
+          | 'P' :: q => .path (pathSegs q)
+          | _ => .unknown
+        some ["ok".toList, hrefOf (pathSegs base) (pathSegs cwd) page (item.drop 1)]
       | _ => some ["bad-request".toList]
     else if cmd == "c16.rewrite".toList then
       -- c16.rewrite json  ->  the document as a successful conversion leaves it
